@@ -234,6 +234,7 @@ protected:
 	bool _fileBody;
 	bool _chunked;
 	bool _ownChunks; // the chunked coding was chosen (and announced) by sendHeaders(), not by the owner of the message
+	bool _bodySent; // write() has written the body of the message (put() or a file)
 	bool _endByClose; // sendHeaders() chose to end the message by closing the connection (an HTTP/1.0 response written in pieces)
 	bool _headersSent;
 	Shared<HttpStatus> _status;
